@@ -10,8 +10,8 @@ PROP = dict(
                   'string_rt', 'string_rt_value', 'string_rt_exact', 'string_rt_equal', 'string_rt_nul',
                   'string_read_total',
                   'cp437_table_facts', 'from_char_exact', 'string_uni_rt', 'string_uni_rt_iff', 'string_uni_rt_nul', 'from_uni_value',
-                  'load_composed', 'load_plain', 'record_xb', 'record_idf', 'record_adf', 'record_bin', 'record_tnd_partial',
-                  'loader_table', 'load_ignores_sauce_bin', 'load_ignores_sauce_tnd_partial'],
+                  'load_composed', 'load_plain', 'record_xb', 'record_idf', 'record_adf', 'record_bin', 'record_tnd',
+                  'loader_table', 'load_ignores_sauce_bin', 'load_ignores_sauce_tnd'],
         harness='c11',
         design='DESIGN.md §4 C11',
         technique='LOADERS: the last sentence of the property composed with the format loaders for xb/bin/adf/idf/tnd: SauceLoad.fromBytes = '
@@ -19,11 +19,11 @@ PROP = dict(
                   'this composition: binformats_from_bytes_is_this, the loaders take C11\'s Sauce record as it is); load_composed (for ALL content and ALL '
                   'metadata the loader gets exactly `content` and the carried record), the SAUCE size rule per loader (record_xb/idf '
                   'unconditional, record_adf/bin by induction over the placed cells: set_height(y+1) before every set_char and '
-                  'crop_loaded_file overwrite the record heights, record_tnd_partial by a simulation over the Tundra command loop), '
+                  'crop_loaded_file overwrite the record heights, record_tnd by a simulation over the Tundra command loop: the record\'s height counts only for a file that places no cell — there it must be the loader\'s default 25, the same kind of hypothesis as record_bin), '
                   'load_ignores_sauce_bin: at loader defaults (width, ice, and for .bin the font NAMED in the record: fontAtDefault) the loaded buffer '
                   'EQUALS the one of the content alone in every field, next to it the kept record (keep: the loader model now stores the '
-                  'record\'s texts in the buffer like Buffer::set_sauce does) (tnd: except the recorded '
-                  'no-cell site). Buffer::from_bytes itself is pinned by the translator (extract sees the whole `bytes`, `len` changes by '
+                  'record\'s texts in the buffer like Buffer::set_sauce does) (load_ignores_sauce_tnd: full since the repair of the TundraDraw arm of write_sauce_info, '
+                  'which now stores the height; the format has no size fields, so for a file without cells the record\'s height is a loader setting and is 25 at the defaults). Buffer::from_bytes itself is pinned by the translator (extract sees the whole `bytes`, `len` changes by '
                   'sauce_header_len only, both loader calls get &bytes[..len]) and tied by a probe: the .asc loader draws every byte of '
                   '{0x1A} u 0x21..=0x7E as one cell, so the cells of the loaded buffer ARE the bytes the loader was handed. '
                   'STRINGS: string_uni_rt / string_uni_rt_iff state the field round trip on the Rust Strings the API accepts (lists of code '
@@ -54,7 +54,7 @@ PROP = dict(
              '(EOF missing, no content, count field +-1/0, cut record, broken date / COMNT id, doubled EOF); BINARY FORMATS: the '
              'writer\'s own file for xb bin adf idf tnd x the same comment counts, at loader defaults and elsewhere, + tail variants: '
              'digest of Buffer::from_bytes vs SauceLoad.fromBytes, picture = picture of load_buffer(content, None); splice and '
-             'to_bytes/from_bytes cases with the boundary counts for every one of the ten writers; .tnd content without a cell. '
+             'to_bytes/from_bytes cases with the boundary counts for every one of the ten writers; .tnd content without a cell under the SAUCE of buffers of height 25 (same picture) and 0, 1, 1..=200, 24/26/100/1000 (the record\'s height is the loaded height; file also through SauceLoad.fromBytes). '
              'distinct_nontrivial = distinct inputs (metadata cases, files, strings)',
         modelled='SauceString::{read, append_to, from (any Rust String: first-index search in CP437_TO_UNICODE, `?` substitution, cut at LEN characters), len, to_string (bytes -> characters through the table), PartialEq}; Buffer::write_sauce_info (all '
                  'arms, error cases, file_size, u16 casts); SauceData::extract (every index/slice/subtraction/assert as a '
